@@ -460,7 +460,8 @@ def run(ctx):
     r = f_strm.result()
     require_marks(r, ('Pick', 'New', 'NextVal', 'TakeN', 'AllOf', 'Reset'))
     phase['waiting_for_model_runs'] = round(time.time() - t1, 1)
-    for t in traces[:2] + traces[-2:]:
+    deep = [t for t in traces if depth(t['x']) >= 2 and len(t['ev']) > 1]
+    for t in deep[len(deep) // 3:len(deep) // 3 + 2] + [t for t in deep if 'seed' in tags(t['x'])][:1] + deep[-1:]:
         ctx.sample(dict(pattern=show(t['x']), first_take=[v for v in t['ev'][1]['r']['v']][:6] if len(t['ev']) > 1 else []))
     ctx.cov['rule'] = ('every expression of the TLC enumeration (depth <= 2%s; %d expressions the oracle defines) plus %d seeded '
                        'random expressions of depth 2-5 incl. Pseed-wrapped random patterns; each run with 4-5 streams '
